@@ -424,3 +424,28 @@ def drop_collisions(s, keys=None):
             nrecs[(t, i, tuple(sorted(kept, key=repr)))] += n
         out[b] = tuple(sorted(nrecs.items(), key=repr))
     return out
+
+
+def wellknown_document():
+    """a document whose author declares the usual vocabularies under their usual prefixes (rdf, rdfs, owl, dcterms,
+    foaf, skos) and uses them for attribute names, a value, an element identifier and relation endpoints"""
+    from prov.model import ProvDocument, Identifier
+    d = ProvDocument()
+    d.add_namespace("ex", "http://example.org/")
+    d.add_namespace("rdfs", "http://www.w3.org/2000/01/rdf-schema#")
+    d.add_namespace("owl", "http://www.w3.org/2002/07/owl#")
+    d.add_namespace("rdf", "http://www.w3.org/1999/02/22-rdf-syntax-ns#")
+    d.add_namespace("dcterms", "http://purl.org/dc/terms/")
+    d.add_namespace("foaf", "http://xmlns.com/foaf/0.1/")
+    d.add_namespace("skos", "http://www.w3.org/2004/02/skos/core#")
+    d.entity("ex:report", {"rdfs:comment": "quarterly figures", "owl:versionInfo": "1.2", "dcterms:title": "Report",
+                           "skos:note": d.valid_qualified_name("rdf:nil")})
+    d.entity("ex:draft")
+    d.activity("ex:edit")
+    d.agent("foaf:Agent0", {"foaf:name": "A"})
+    d.usage("ex:edit", "ex:draft", identifier="ex:u1", other_attributes={"rdfs:seeAlso": Identifier("http://example.org/howto")})
+    d.derivation("ex:report", "ex:draft")
+    d.specialization("ex:report", "owl:Thing")
+    d.attribution("ex:report", "foaf:Agent0")
+    d._features = ["well-known-vocabularies"]
+    return d
